@@ -314,7 +314,7 @@ Definition buildInt (T : int_tables) (base : Z) (t_val : list N) (prefixed : boo
       end
   end.
 
-(* parse_num<T> for floating T (chaiscript_defines.hpp), every operation in T's own format.
+(* parse_num<T> for floating T (chaiscript_defines.hpp), every digit operation in T's own format, the final scaling in long double.
    std::pow(T(10), y) is libm, not source: `pow10_model` is the CORRECTLY ROUNDED power, which libm only
    guarantees when 10^y is representable (see C16_float_value_partial and the tolerance test in p_C16). *)
 Definition pow10_model (k : fk) (y : spec_float) : spec_float :=
@@ -356,8 +356,12 @@ Definition parse_num_float (k : fk) (s : list N) : spec_float :=
   let z := S754_zero false in
   let st := fold_left (pn_step k) s (mkPn z z z 0) in
   if pn_exp st =? 0 then pn_t st
-  else SFmul (fprec k) (femax k) (pn_base st)
-             (pow10_model k (SFmul (fprec k) (femax k) (pn_t st) (f_of_Z k (pn_exp st)))).
+  else
+    (* static_cast<T>(static_cast<long double>(base) * std::pow(static_cast<long double>(10), static_cast<long double>(t) * exponent)):
+       the power and the product are formed in x87 long double, the result is converted to T *)
+    let p80 := fprec F80 in let e80 := femax F80 in
+    f_conv k (SFmul p80 e80 (f_conv F80 (pn_base st))
+                    (pow10_model F80 (SFmul p80 e80 (f_conv F80 (pn_t st)) (f_of_Z F80 (pn_exp st))))).
 
 Definition buildFloat (T : int_tables) (t_val : list N) : fk * spec_float :=
   let '(f, i) := scan_suffix (ft_suffix T) (rev t_val) no_flags in
